@@ -224,7 +224,16 @@ func c09Horizon(p *Prog, r *Report) {
 	f := p.FlatInl(fi)
 	olds := f.CallSites(kTxRepoOldest)
 	cols := f.CallSites(kCoreDeleteOld)
-	if len(olds) != 1 || len(cols) != 1 {
+	// (one call in the source may be spliced in at several places: collectBefore(ctx, horizon) called from two exits)
+	colNodes := map[int]bool{}
+	sameCall := len(cols) > 0
+	for _, c := range cols {
+		colNodes[c.Node] = true
+		if c.Call != cols[0].Call {
+			sameCall = false
+		}
+	}
+	if len(olds) != 1 || len(cols) == 0 || !sameCall {
 		r.Viol("C09.b", kCleanerDeleteOld+"#horizon", p.pos(fi.Decl), fmt.Sprintf("%d Oldest and %d core.DeleteOld calls", len(olds), len(cols)))
 		return
 	}
@@ -281,7 +290,7 @@ func c09Horizon(p *Prog, r *Report) {
 	type arrival struct{ world, val string }
 	arrivals := map[arrival]bool{}
 	vf.Visit = func(s vfState) {
-		if s.Node != col.Node {
+		if !colNodes[s.Node] {
 			return
 		}
 		v := ""
@@ -1465,6 +1474,14 @@ func arrShapeWith(info *types.Info, e ast.Expr, isArr func(ast.Expr) bool) strin
 		if id, ok := x.Fun.(*ast.Ident); ok && id.Name == "append" && len(x.Args) == 2 && isArr(x.Args[0]) {
 			return "append"
 		}
+		// slices.Delete(arr, 0, 1): the library form of "everything but the first element, moved to the front"
+		if fn, _ := info.Uses[selOf(x.Fun)].(*types.Func); fn != nil && fn.Pkg() != nil && fn.Pkg().Path() == "slices" && fn.Name() == "Delete" && len(x.Args) == 3 && isArr(x.Args[0]) {
+			if lo, ok := constInt(info, x.Args[1]); ok && lo == 0 {
+				if hi, ok := constInt(info, x.Args[2]); ok && hi == 1 {
+					return "reslice-from-1"
+				}
+			}
+		}
 		// append(arr[:0], arr[1:]...): everything but the first element, moved to the front in place
 		if id, ok := x.Fun.(*ast.Ident); ok && id.Name == "append" && len(x.Args) == 2 && x.Ellipsis.IsValid() {
 			if d, ok := ast.Unparen(x.Args[0]).(*ast.SliceExpr); ok && isArr(d.X) && d.Low == nil && d.High != nil {
@@ -1612,4 +1629,17 @@ func c17RunPlanner(p *Prog, h *FuncInfo, call *ast.CallExpr, outer *Env, item *V
 		return false, nil, werr
 	}
 	return selected, val, nil
+}
+
+// selOf: the selected identifier of pkg.Name / x.Name, or the identifier itself.
+func selOf(e ast.Expr) *ast.Ident {
+	switch x := ast.Unparen(e).(type) {
+	case *ast.SelectorExpr:
+		return x.Sel
+	case *ast.Ident:
+		return x
+	case *ast.IndexExpr:
+		return selOf(x.X)
+	}
+	return nil
 }
